@@ -1,6 +1,7 @@
 (* C01 — proofs: what one fed pack contributes to the output, over every state of the reader model *)
 From Coq Require Import List String NArith ZArith Bool Arith Lia Permutation Sorting.Sorted.
 From Verif Require Import Base.Util Reader.Model Reader.Script Reader.Proofs C03.Proofs.
+From Verif Require Import Reader.Forget.
 Import ListNotations.
 Local Open Scope string_scope.
 
@@ -71,8 +72,12 @@ Definition carries (p : spack) (spch : string) (pk : epack) : Prop :=
        /\ Forall (fun x => e_kind x = KTick) opening /\ e_kind tk = KTick
        /\ Forall2 same_but_time o' data.
 
-Lemma fire_out s : out (fire_pbars (fire_cbars s)) = out s.
-Proof. destruct (fire_cbars_frame s) as [_ B]. destruct (fire_pbars_frame (fire_cbars s)) as [_ D]. congruence. Qed.
+Lemma fire_out l b s : out (forget_fired l b (fire_pbars (fire_cbars s))) = out s.
+Proof.
+  pose proof (forget_fired_frame l b (fire_pbars (fire_cbars s))) as F. unfold same_but_heap in F.
+  destruct (fire_cbars_frame s) as [_ B]. destruct (fire_pbars_frame (fire_cbars s)) as [_ D].
+  replace (out (forget_fired l b (fire_pbars (fire_cbars s)))) with (out (fire_pbars (fire_cbars s))) by (symmetry; apply F). congruence.
+Qed.
 
 Lemma fold_add_shard_out c ref : forall shards s, out (fold_left (fun s sh => add_shard s c ref sh) shards s) = out s.
 Proof. induction shards as [|sh r IH]; intros s; cbn [fold_left]; [reflexivity|]. rewrite IH. apply add_shard_out. Qed.
